@@ -183,6 +183,8 @@ def footprint_verdict(res, handles, tier, seed):
         res.notes.append("dynamic footprint validation did not run: Gen/Prange.lean unreadable: %s" % e)
         res.count("footprint:not-run")
         return
+    # joblib task loops (`module.function@joblib#k`) are in the table for the Lean obligation only: the recorder observes prange
+    static = {n: v for n, v in static.items() if "@joblib" not in n}
     seen = sorted(doc.get("enumerated", []))
     if seen != sorted(static):
         # the table the Lean obligation is decided over and the loops of the running library are not the same set
@@ -256,6 +258,25 @@ def footprint_verdict(res, handles, tier, seed):
         numba.set_num_threads(maxt)
 
 
+def check_bits_build(res, seed, reps):
+    """a bit-packed index: its forest is built by a joblib thread pool (one task per tree, each with its own generator row);
+    repeated seeded builds must give the same graph bit for bit"""
+    from pynndescent import NNDescent
+    rs = np.random.default_rng(9000 + seed)
+    X = rs.integers(0, 256, size=(12000, 16), dtype=np.uint8)
+    cfg = {"kind": "bits", "n": 12000, "bytes": 16, "metric": "bit_hamming", "n_trees": 8, "n_jobs": -1, "seed": 1234 + seed}
+    numba.set_num_threads(numba.config.NUMBA_NUM_THREADS)
+    digs = []
+    for r in range(reps):
+        idx = NNDescent(X, metric="bit_hamming", n_neighbors=10, n_trees=8, random_state=cfg["seed"], n_jobs=-1)
+        digs.append(H(idx._neighbor_graph[0], idx._neighbor_graph[1], idx.rng_state))
+    res.case(("bits-build", seed), True, sample={"cfg": cfg, "digest": digs[0]})
+    res.count("kind_bits"); res.traces += reps
+    if len(set(digs)) > 1:
+        res.violation("repro:bits:build", "repeated seeded builds of a bit-packed index differ (%d distinct graphs in %d builds)"
+                      % (len(set(digs)), reps), {"cfg": cfg})
+
+
 def run(res, tier, seed, search):
     rng = np.random.default_rng(seed + 77)
     res.rule = ("seeded histories build->prepare->query x2->query->[update->prepare->query] repeated R times in-process under a fixed "
@@ -277,6 +298,8 @@ def run(res, tier, seed, search):
     try:
         for i in range(ncfg):
             check_cfg(res, gen_cfg(rng, tier, i), reps)
+        if search or tier != "quick":
+            check_bits_build(res, seed, 5)
         numba.set_num_threads(maxt)
     finally:
         footprint_verdict(res, handles, tier, seed)
